@@ -4,6 +4,7 @@ import PlasVerif.Proofs.UrlsRender
 import PlasVerif.Proofs.UrlsToc
 import PlasVerif.Proofs.UrlsFoot
 import PlasVerif.Proofs.UrlsIndex
+import PlasVerif.Proofs.UrlsCrumbs
 /-!
 # C14 — every internal link in the rendered output lands on an existing target
 
@@ -275,6 +276,32 @@ example : inputOK sampleFoot = true ∧ effSplit 2 "paper.html".toList = -10 ∧
     (footnotes [] (prepare 1 sampleFoot 0)).map (fun e => (e.2.1, e.2.2)) = [(some 1, some 1), (some 1, some 1)] ∧
     (footnotes [] (prepare 2 sampleFoot 0)).map (fun e => (e.2.1, e.2.2)) = [(some 1, some 1), (some 2, some 2)] := by
   decide
+
+/-- **`up` links and breadcrumbs land**: for every node `n` of the tree (with its chain of ancestors `a`), the
+    `up`/`parent` entry and every breadcrumb that `SectionUtils.links` computes for `n` is the URL of a node of
+    the tree — the ancestor, computed with that ancestor's own ancestors — hence names a produced file and an
+    identifier emitted in it. -/
+theorem up_and_breadcrumb_links_land (root : Tree) (f0 : Nat) (hf0 : root.file = some f0)
+    (n : Tree) (a : List Tree) (hn : (n, a) ∈ nodesA [] root) (u : Url)
+    (hu : u ∈ breadcrumbs n a ∨ upOf n a = some u) : Lands (render root).2 (toLink u) := by
+  obtain ⟨p, hp, e⟩ := PlasVerif.Proofs.UrlsCrumbs.crumb_is_node_url root n a hn u hu
+  rw [← e]
+  exact land_root root f0 hf0 p hp
+
+example : (nodesA [] (prepare 1 sample 0)).map (fun p => (breadcrumbs p.1 p.2).map (·.file)) =
+    [[some 0], [some 0, some 1], [some 0, some 1, some 1], [some 0, some 1, some 1, some 1],
+     [some 0, some 1, some 1], [some 0, some 2]] := by decide
+
+/-- **The navigation entries of `userdata['links']` are nodes of the document**: whatever sequence of commands,
+    `\begin{…}` and `\end{…}` instances of link-type macros the parser invokes (`\printindex`, the `theindex`
+    environment makeindex writes, `thebibliography`, …), every registered entry is a command or `\begin` instance —
+    never the throw-away instance created for `\end{…}` — so `links.index.url` is the URL of a rendered node
+    and lands by `every_url_lands`. -/
+theorem nav_entries_are_document_nodes (hist : List Inst) : ∀ e ∈ parseNav hist, e.inTree = true :=
+  parseNav_inTree_go hist [] (by simp)
+
+example : parseNav [.cmd "" 0, .envBegin "bibliography" 1, .envEnd "bibliography" 1, .envBegin "index" 2, .envEnd "index" 2] =
+    [⟨"index", 2, true⟩, ⟨"bibliography", 1, true⟩] := by decide
 
 /-! ### the index page: one navigation link and one heading per group (`IndexUtils.groups`, `Model/UrlsIndex.lean`) -/
 
